@@ -165,6 +165,58 @@ func init() {
 		Doc: "no unguarded index or slice expression in the config package: every index/slice operation is dominated by a length guard, is a strings.Split result's first element, a loop-bounded index, or a listed justified exception",
 		Run: func(r *R) { checkPackageIndexes(r, "tars/util/conf", nil) }})
 
+	register(&Rule{ID: "C17.R5", Props: []string{"C17"}, Min: 1, Needs: NeedMain,
+		Doc: "no line is dropped by the line splitter: lines are split with bufio.Scanner, or — when a bufio.Reader.ReadString/ReadBytes/ReadLine loop is used — the data returned together with a non-nil error (the last, unterminated line) is still processed",
+		Run: func(r *R) {
+			sp := r.w.Pkg("tars/util/conf")
+			if sp == nil {
+				r.AnchorMissing("package tars/util/conf")
+				return
+			}
+			scanner := false
+			for _, fn := range r.w.Funcs(sp) {
+				eachInstr(fn, func(in ssa.Instruction) {
+					c, ok := in.(*ssa.Call)
+					if !ok {
+						return
+					}
+					id := funcID(calleeObj(&c.Call))
+					if id == "bufio.(Scanner).Scan" {
+						scanner = true
+					}
+					if id != "bufio.(Reader).ReadString" && id != "bufio.(Reader).ReadBytes" && id != "bufio.(Reader).ReadLine" {
+						return
+					}
+					var data, errv ssa.Value
+					for _, ref := range *c.Referrers() {
+						if e, ok := ref.(*ssa.Extract); ok {
+							if e.Index == 0 {
+								data = e
+							}
+							if isErrorType(e.Type()) {
+								errv = e
+							}
+						}
+					}
+					okk := false
+					if data != nil && errv != nil {
+						for _, ref := range *data.Referrers() {
+							if _, isDbg := ref.(*ssa.DebugRef); isDbg {
+								continue
+							}
+							if !knownNilAt(errv, ref.Block()) {
+								okk = true // used where the error may be non-nil
+							}
+						}
+					}
+					r.Check(okk, fname(fn), calleeShort(&c.Call)+" keeps the last line", c.Pos(), "the data returned with an error is processed", "the text returned by %s is only used when the error is nil: the last line of a chunk (no trailing newline, e.g. `k=v</a>`) is returned together with io.EOF and silently dropped", calleeShort(&c.Call))
+				})
+			}
+			if scanner {
+				r.OKLookup("tars/util/conf", "bufio.Scanner line splitting", token.NoPos, "bufio.Scanner returns the final unterminated line")
+			}
+		}})
+
 	register(&Rule{ID: "C17.R4", Props: []string{"C17"}, Min: 3, Needs: NeedMain,
 		Doc: "line grammar and domain merging: key/value lines are split with strings.SplitN(line, \"=\", 2) (first '=' splits); a '#' line or empty line is skipped before anything is recorded; a new domain node is created only when the current node has no child of that name (repeated domains merge)",
 		Run: func(r *R) {
